@@ -4,6 +4,7 @@ mod c04;
 mod c05;
 mod c06;
 mod c10;
+mod c19;
 
 fn main() {
     let args = vmodel::ev::parse_args();
@@ -17,6 +18,7 @@ fn main() {
         "c05" => c05::run(&args),
         "c06" => c06::run(&args),
         "c10" => c10::run(&args),
+        "c19" => c19::run(&args),
         other => {
             eprintln!("unknown subcommand {}", other);
             std::process::exit(2);
